@@ -65,7 +65,8 @@ class Snapshot:
     reference to every node so ids cannot be reused while the snapshot lives.
     """
 
-    def __init__(self, roots, frozen_as_leaf=False):
+    def __init__(self, roots, frozen_as_leaf=False, ignore_attrs=()):
+        self.ignore_attrs = set(ignore_attrs)
         self.nodes = []  # strong refs
         self.index = {}  # id -> idx
         self.desc = []  # per node: [id, typename, content]
@@ -105,7 +106,7 @@ class Snapshot:
             content = ["Box", self._visit(x.v)]
         elif is_spec_instance(x):
             content = ["spec", type(x).__name__,
-                       [[k, self._visit(v)] for k, v in x.__dict__.items()]]
+                       [[k, self._visit(v)] for k, v in x.__dict__.items() if k not in self.ignore_attrs]]
         elif hasattr(x, "__dict__") and not callable(x):
             content = ["obj", type(x).__name__,
                        [[k, self._visit(v)] for k, v in sorted(x.__dict__.items())]]
